@@ -66,10 +66,11 @@ def sequence_failures(spec, steps):
     bad = []
     for i, c in enumerate(res["calls"]):
         if c["pos"].shape == ref.shape and np.array_equal(c["pos"], ref):
-            b = law_failures(spec, E.call_view(res, i))
+            b = law_failures(spec, E.end_view(res, i))      # the held result, read at the END of the sequence
             bad += ["call %d of the sequence (%s, reference configuration): %s" % (i, c["how"], x) for x in b]
     if not np.array_equal(res["tgt_after"], np.array(spec["tgt"], dtype=float)):
         bad.append("the target molecule passed to the constructor was modified by the calls")
+    bad = res["held_problems"][:3] + bad
     return bad[:6]
 
 
